@@ -333,6 +333,63 @@ theorem putAll_ok (m : Msg) (vs : List Val) (hwf : ∀ v ∈ vs, v.wf) (hraw : m
       (by rw [hw.2.1]; omega)]
     rw [written_written m _ _ (by omega), henc]
 
+/-! ### the sender never writes outside `data.raw` -/
+
+/-- On a message whose size is within the buffer (every message built by puts from a fresh or typed message),
+putRaw either stores inside `data.raw` or raises an error. -/
+theorem putRaw_safe (m : Msg) (b : Bytes) (hsz : m.size ≤ maxSize) :
+    (putRaw m b).2 ≠ .oob ∧ (putRaw m b).1.size ≤ maxSize := by
+  unfold putRaw
+  split
+  · exact ⟨by simp, hsz⟩
+  · split
+    · rename_i h0 h1
+      have hfit : m.size + b.length ≤ maxSize := by
+        unfold maxSize at hsz h1 ⊢; unfold SIZE_T at h1; omega
+      rw [if_pos hfit]
+      exact ⟨by simp, hfit⟩
+    · exact ⟨by simp, hsz⟩
+
+theorem putVal_safe (m : Msg) (v : Val) (hsz : m.size ≤ maxSize) :
+    (putVal m v).2 ≠ .oob ∧ (putVal m v).1.size ≤ maxSize := by
+  cases v with
+  | int n => exact putRaw_safe m _ hsz
+  | fixed b => exact putRaw_safe m _ hsz
+  | str b =>
+    simp only [putVal, putString]
+    split
+    · exact ⟨by simp, hsz⟩
+    · have h1 := putRaw_safe m (encodeInt (b.length : Int)) hsz
+      unfold putInt
+      rcases hr : putRaw m (encodeInt (b.length : Int)) with ⟨m', r⟩
+      rw [hr] at h1
+      cases r with
+      | ok u => cases u; exact putRaw_safe m' b h1.2
+      | thrown => exact ⟨by simp, h1.2⟩
+      | oob => exact absurd rfl h1.1
+
+theorem putAll_safe (m : Msg) (vs : List Val) (hsz : m.size ≤ maxSize) :
+    (putAll m vs).2 ≠ .oob ∧ (putAll m vs).1.size ≤ maxSize := by
+  induction vs generalizing m with
+  | nil => exact ⟨by simp [putAll], hsz⟩
+  | cons v vs ih =>
+    have h1 := putVal_safe m v hsz
+    simp only [putAll]
+    rcases hr : putVal m v with ⟨m', r⟩
+    rw [hr] at h1
+    cases r with
+    | ok u => cases u; exact ih m' h1.2
+    | thrown => exact ⟨by simp, h1.2⟩
+    | oob => exact absurd rfl h1.1
+
+theorem setType_size (m : Msg) (t : Int) (hsz : m.size ≤ maxSize) : (setType m t).1.size ≤ maxSize := by
+  unfold setType
+  split
+  · split <;> exact hsz
+  · split
+    · exact hsz
+    · exact Nat.zero_le _
+
 /-! ### reading back -/
 
 /-- extraction of `n` bytes sitting at the read offset -/
